@@ -4,9 +4,9 @@ from __future__ import annotations
 
 from . import _checks as K
 from ._adapters import ADAPTERS
-from ._layouts import translate  # noqa: F401  (T1)
+from ._layoutsw import translate  # noqa: F401  (T1: Gen/Layouts and Gen/LayoutsW)
 
-MODULES = ["Iodata.Props.C02"]
+MODULES = ["Iodata.Props.C02", "Iodata.Props.C02W"]
 RULE = (
     "per format, quantised objects (a printed real is the integer round(|x|*10^d) and a sign; a scientific field is the pair "
     "(d+1 mantissa digits, decimal exponent)). XYZ/SDF/PDB: atom counts cycle through 1,2,3,9,10,11,99,100,101,999,1000,1001,"
@@ -81,6 +81,7 @@ def correspond(ctx):
     _fchk.corr_fields(ctx, ctx.n(2000, 8000))
     _fchk.corr_objects(ctx, ctx.n(800, 3000))
     _fchk.corr_shuffles(ctx)
+    from . import _w; _w.correspond(ctx)  # second group of formats (FCIDUMP text, POSCAR text, FCHK objects, WFN/WFX, QCSchema)
 
 
 def search(ctx):
@@ -94,7 +95,8 @@ def search(ctx):
     from ._fchk import FCHK_FREE
 
     K.search_c02(ctx, FCHK_FREE, ctx.n(800, 3000) * mult)
+    from . import _w; _w.search(ctx)  # second group of formats (FCIDUMP text, POSCAR text, FCHK objects, WFN/WFX, QCSchema)
 
 
 def replay(ctx, obj):
-    return K.replay_generic(ctx, obj)
+    from . import _w; return _w.replay_or(ctx, obj, K.replay_generic)
